@@ -44,6 +44,7 @@ def main():
     ap.add_argument('--checks'); ap.add_argument('--tier', default='quick')
     ap.add_argument('--inplace', action='store_true'); ap.add_argument('--keep', action='store_true')
     ap.add_argument('--src', default='/tmp/mut')
+    ap.add_argument('--label')
     a = ap.parse_args()
     diff = '%s/%s/mutant_%s.diff' % (a.src, a.pid, a.which)
     demo = '%s/%s/demo_%s.py' % (a.src, a.pid, a.which)
@@ -90,7 +91,7 @@ def main():
                                                   ('machinery failure' if rc == 2 else 'missed'),
                                                   time.time() - t0))
         if a.keep:
-            d = os.path.join(VERIF, 'seeded', '%s-%s' % (a.pid, a.which))
+            d = os.path.join(VERIF, 'seeded', '%s-%s' % (a.pid, a.label or a.which))
             os.makedirs(d, exist_ok=True)
             shutil.copy(diff, os.path.join(d, 'patch.diff'))
             shutil.copy(demo, os.path.join(d, 'demo.py'))
